@@ -120,16 +120,21 @@ def make_variants(base, out, rng, tier):
 
 
 # ----------------------------------------------------------------------------- the shared run
+def _mc_one(args):
+    cfg, scratch, budget_s, workers = args
+    # heap per JVM: four run side by side
+    r = tlc.run_tlc('BertE.tla', cfg, scratch, workers=workers, timeout=budget_s, java_opts=('-Xmx8g',))
+    return dict(cfg=cfg, ok=r['ok'], states=r['states'], distinct=r['distinct'],
+                depth=r['depth'], violated=r['violated'], wall_s=round(r['wall_s'], 1),
+                tail=r['out'][-1500:] if not r['ok'] else '')
+
+
 def run_mc(cfgs, scratch, budget_s):
-    res = []
-    for cfg in cfgs:
-        if not os.path.exists(os.path.join(tlc.SPEC_DIR, cfg)):
-            continue
-        r = tlc.run_tlc('BertE.tla', cfg, scratch, workers=16, timeout=budget_s)
-        res.append(dict(cfg=cfg, ok=r['ok'], states=r['states'], distinct=r['distinct'],
-                        depth=r['depth'], violated=r['violated'], wall_s=round(r['wall_s'], 1),
-                        tail=r['out'][-1500:] if not r['ok'] else ''))
-    return res
+    """Exhaustive configurations of S, four at a time (4 TLC workers each: better throughput than 16 workers on one)."""
+    from concurrent.futures import ThreadPoolExecutor
+    cfgs = [c for c in cfgs if os.path.exists(os.path.join(tlc.SPEC_DIR, c))]
+    with ThreadPoolExecutor(4) as ex:
+        return list(ex.map(_mc_one, [(c, scratch, budget_s, 4) for c in cfgs]))
 
 
 def run_sim(sims, scratch, seed):
